@@ -161,7 +161,8 @@ func measures(data []byte) (lo, hi int) {
 }
 
 var sizeKinds = []string{"absent", "absent", "absent", "absent", "absent", "absent", "truthful", "truthful", "understated",
-	"understated", "overstated-within", "eq-limit", "limit+1", "2xlimit", "int32max", "2^31", "2^32", "20digits", "nonnumeric"}
+	"understated", "overstated-within", "eq-limit", "limit+1", "2xlimit", "int32max", "2^31", "2^32", "20digits", "nonnumeric",
+	"int64-edge", "uint64-range"}
 
 func genProbe(r *fw.Rand, limit, slot int) probe {
 	var p probe
@@ -234,6 +235,16 @@ func genProbe(r *fw.Rand, limit, slot int) probe {
 		p.hugeNum = true
 	case "nonnumeric":
 		val = r.Pick([]string{"abc", "12x", "x12", "0x10", "1e3", "_"})
+	case "int64-edge":
+		// around the edges of the machine integer types (after seeded change C06-10): every one of
+		// these is a number, and far above every limit
+		val = r.Pick([]string{"9223372036854775806", "9223372036854775807", "9223372036854775808", "9223372036854775809",
+			"18446744073709551614", "18446744073709551615", "18446744073709551616", "18446744073709551617", "4611686018427387904",
+			"340282366920938463463374607431768211456", "0009223372036854775808"})
+		p.hugeNum = true
+	case "uint64-range":
+		val = strconv.FormatUint(1<<63+r.Uint64()>>1, 10) // 2^63 .. 2^64-1
+		p.hugeNum = true
 	}
 	if p.declared >= 0 {
 		val = strconv.FormatInt(p.declared, 10)
